@@ -8,6 +8,7 @@ import pandas as pd
 import tlz as toolz
 from dask import compute
 from dask.dataframe.core import _concat, make_meta
+from dask.dataframe.dispatch import group_split_dispatch
 from dask.dataframe.shuffle import (
     barrier,
     collect,
@@ -15,8 +16,6 @@ from dask.dataframe.shuffle import (
     maybe_buffered_partd,
     partitioning_index,
     set_partitions_pre,
-    shuffle_group,
-    shuffle_group_2,
     shuffle_group_get,
 )
 from dask.utils import (
@@ -353,12 +352,29 @@ class SimpleShuffle(PartitionsFiltered, Shuffle):
             meta = meta.reset_index(drop=True)
         return meta
 
+    # ``partitioning_index`` is the label of a column that already holds the
+    # number of the output partition of every row.  dask's ``shuffle_group``
+    # only recognises such a column by the literal name "_partitions" and hashes
+    # it again otherwise (the label differs when the frame of the user has a
+    # "_partitions" column of its own), so split on the column directly.
+
     @staticmethod
-    def _shuffle_group(df, _filter, *args):
-        """Filter the output of `shuffle_group`"""
+    def _shuffle_group(df, _filter, col, stage, k, npartitions, ignore_index, nfinal):
+        """Split ``df`` into the (filtered) pieces of one shuffle stage"""
+        typ = np.min_scalar_type(npartitions * 2)
+        ind = (df[col] % npartitions).astype(typ) // k**stage % k
+        groups = group_split_dispatch(df, ind, k, ignore_index=ignore_index)
         if _filter is None:
-            return shuffle_group(df, *args)
-        return {k: v for k, v in shuffle_group(df, *args).items() if k in _filter}
+            return groups
+        return {k: v for k, v in groups.items() if k in _filter}
+
+    @staticmethod
+    def _shuffle_group_2(df, col, ignore_index, nparts):
+        if not len(df):
+            return {}, df
+        ind = df[col].astype(np.int32)
+        groups = group_split_dispatch(df, ind, ind.max() + 1, ignore_index=ignore_index)
+        return groups, df.iloc[:0]
 
     def _layer(self):
         """Construct graph for a simple shuffle operation."""
@@ -512,7 +528,7 @@ class TaskShuffle(SimpleShuffle):
 
             dsk2 = {
                 (repartition_group_name, i): (
-                    shuffle_group_2,
+                    self._shuffle_group_2,
                     (name, i),
                     self.partitioning_index,
                     self.ignore_index,
